@@ -111,6 +111,36 @@ def run(ck):
               "the arm leaves the read loop" if not bad and not rd else "after the disconnection the loop continues (%s reachable at %s)" % (
                   "onInput" if bad else "recv", (bad or rd)[0].loc))
 
+    # ---------------- R7: edge-triggered drain ----------------
+    ck.rule("C08-R7", "C must-pass-through (edge-triggered drain)",
+            "peer sockets are registered edge-triggered, so Transport::handleIncoming may stop reading only after recv() reported "
+            "would-block, end-of-stream or an error: every non-throwing exit passes through the errno==EAGAIN/EWOULDBLOCK arm or through "
+            "handlePeerDisconnection (a FIN queued behind the last bytes would otherwise never be seen)", 2)
+    hp0 = lib.single(prog, T + "handlePeer")
+    reg = [e for e in hp0.calls(lambda e: (e.get("callee") or "") == "Pistache::Aio::Reactor::registerFd")]
+    ck.require(reg, "registerFd not found in handlePeer")
+    edge_mode = all(lib.refs_enumerator(e, "Pistache::Polling::Mode::Edge") for e in reg)
+    ck.ob("C08-R7", "handlePeer/registration-mode", True, reg[0].loc, hp0, "peer sockets registered %s-triggered" % ("edge" if edge_mode else "level"), nontrivial=False)
+    if edge_mode:
+        wbarms = set(lib.errno_arms(h, lib.WOULD_BLOCK))
+        ck.require(wbarms, "would-block arm not found in handleIncoming")
+
+        def step7(st, ev):
+            if ev in discs:
+                return "drained"
+            return st
+
+        def edge7(st, blk, k, succ):
+            if succ in wbarms:
+                return "drained"
+            return st
+        exits7, _ = cfg.run_automaton(h, "reading", step7, edge=edge7)
+        bad7 = [x for x in exits7 if x.kind != "throw" and x.state != "drained"]
+        ck.ob("C08-R7", "handleIncoming/drain-until-would-block", not bad7, h.loc, h,
+              "the read loop ends only on would-block, end-of-stream or error" if not bad7 else
+              "the read loop can be left (block %s) while the socket may still hold data or a FIN: with edge-triggered notification no further "
+              "event arrives and the disconnection is never reported" % bad7[0].block)
+
     # ---------------- R4 ----------------
     hp = lib.single(prog, T + "handlePeer")
     for name, pred in (("peers.insert", lambda e: e["k"] == "call" and e.base_callee() == "std::unordered_map::insert" and strip_tmpl((e.get("recv") or {}).get("f") or "") == T + "peers"),
